@@ -170,6 +170,11 @@ func init() {
 		comps: map[string]string{"PollWorker.Start loop, registry (add/rmv/get), Process": "real (hook H6)", "PollHandler.ServeHTTP": "real, with in-memory response writers and cancellable contexts", "TCP listener, http.Server": "stub (not started)", "sender worker / kernel": "not part of this engine"},
 		assum: []string{"testing/synctest (go1.26.8) is trusted for quiescence detection", "runs in which a select could have two ready cases are not generated (the pruned outcomes are: connect and disconnect reports queued at the same time)", "the choice among several listeners of a group uses math/rand's global source, seeded per run"},
 	}, "C18")
+	k.Register(&extEngine{name: "L", bin: "ptest",
+		rule: "Engine L evaluations are runs of the production System.Loop / api.Signal / aio.Signal / Shutdown with the production api and aio queues inside a testing/synctest bubble: swarm over api queue, completion queue, coroutine pool, submission/completion batch and subsystem queue sizes (1..100), 8-48 steps (bursts of requests, completions or failures of a controlled subsystem, capacity changes, sleeps on the fake clock, shutdown at any point), then completion of everything, shutdown and a late request; plus a run of the production store.Collect over sends, flushes and a close. Non-trivial: at least two requests were refused or failed explicitly.",
+		comps: map[string]string{"System.Loop, Tick, Shutdown, Done": "real", "api.go (queue, Signal, buffer)": "real", "aio.go (queue, Signal, buffer, Dispatch)": "real", "Echo coroutine": "real", "subsystem": "stub (controlled: capacity and completions decided by the scheduler)", "store.Collect": "real (separate micro-simulation)"},
+		assum: []string{"testing/synctest (go1.26.8) is trusted for quiescence and the fake clock", "after Shutdown() the production loop polls; from then on steps are separated by yields instead of quiescence, outcomes are independent of that timing", "instruction-level races between Shutdown() and a concurrent EnqueueSQE are not explored (api.done is an unsynchronised bool)"},
+	})
 }
 
 // ------------------------------------------------------------------- worker
@@ -494,16 +499,24 @@ func cmdCheck(args []string) int {
 		return 2
 	}
 	self, _ := os.Executable()
-	deadline := time.Now().Add(time.Duration(*secs) * time.Second).UnixMilli()
 	a := newAgg()
-	var mu sync.Mutex
-	var wg sync.WaitGroup
+	// C12 is decided by two engines: the kernel engine and the loop engine
+	phases := []k.Engine{eng}
+	shares := []float64{1}
+	if *prop == "C12" {
+		phases = []k.Engine{eng, k.EngineByName("L")}
+		shares = []float64{0.6, 0.4}
+	}
 	infra := false
 	type death struct {
 		run    int
 		stderr string
 	}
 	var deaths []death
+	for pi, eng := range phases {
+	deadline := time.Now().Add(time.Duration(float64(*secs)*shares[pi]*1000) * time.Millisecond).UnixMilli()
+	var mu sync.Mutex
+	var wg sync.WaitGroup
 	for w := 0; w < *workers; w++ {
 		wg.Add(1)
 		go func(w int) {
@@ -580,6 +593,7 @@ func cmdCheck(args []string) int {
 		}(w)
 	}
 	wg.Wait()
+	}
 	wall := time.Since(start).Seconds()
 
 	known := loadKnown()
@@ -683,6 +697,20 @@ func cmdCheck(args []string) int {
 
 	// evidence
 	samples := eng.Samples(*prop, *seed, 2)
+	ruleText := eng.Rule(*prop)
+	comps := map[string]string{}
+	for k2, v := range eng.Components() {
+		comps[k2] = v
+	}
+	assumptions := eng.Assumptions(*prop)
+	for _, e2 := range phases[1:] {
+		ruleText += " || " + e2.Rule(*prop)
+		for k2, v := range e2.Components() {
+			comps["engine "+e2.Name()+": "+k2] = v
+		}
+		assumptions = append(assumptions, e2.Assumptions(*prop)...)
+		samples = append(samples, e2.Samples(*prop, *seed, 1)...)
+	}
 	ev := map[string]any{
 		"property_id": *prop,
 		"tier":        *tier,
@@ -693,7 +721,7 @@ func cmdCheck(args []string) int {
 		"coverage": map[string]any{
 			"evaluations":         a.runs,
 			"distinct_nontrivial": len(a.nontrivial),
-			"rule":                eng.Rule(*prop),
+			"rule":                ruleText,
 			"samples":             samples,
 			"runs_per_hour":       int(float64(a.runs) / wall * 3600),
 			"simulated_time_ms":   a.simMs,
@@ -710,9 +738,9 @@ func cmdCheck(args []string) int {
 			"known_findings_seen": knownSeen,
 			"violations_of_other_properties_seen": a.otherViol,
 			"worker_deaths":       len(deaths),
-			"components":          eng.Components(),
+			"components":          comps,
 		},
-		"assumptions": eng.Assumptions(*prop),
+		"assumptions": assumptions,
 	}
 	evDir := filepath.Join(verifRoot(), "evidence")
 	_ = os.MkdirAll(evDir, 0o755)
